@@ -309,7 +309,7 @@ def finish(ctx, signature, level_rule, assumptions, trusted_base, extra_cov=None
     ev = {"property_id": ctx.pid, "tier": ctx.tier, "seed": ctx.seed, "level": "model_checking", "coverage": cov,
           "assumptions": assumptions, "wall_s": round(time.time() - ctx.t0, 1), "violations": violations}
     # experiments against modified trees (bin/seedcheck, bin/fixrevert) write their evidence elsewhere
-    evdir = os.environ.get("VERIF_EVIDENCE_DIR") or os.path.join(VERIF, "evidence")
+    evdir = os.environ.get("VERIF_EVIDENCE_DIR") or os.path.join(VERIF, "evidence-extra" if ctx.pid.startswith("X") else "evidence")
     os.makedirs(evdir, exist_ok=True)
     tmp = os.path.join(evdir, ctx.pid + ".json.tmp")
     with open(tmp, "w") as f:
